@@ -2299,7 +2299,7 @@ bool ScriptVariable::operator==(const ScriptVariable &value) const
         return m_data.charValue == value.m_data.charValue;
 
     case uint32_t(variableType_e::ConstString + variableType_e::ConstString * variableType_e::Max):    // ( const string )        ==        ( const string )
-        return m_data.long64Value == value.m_data.long64Value;
+        return m_data.constStringValue == value.m_data.constStringValue;
 
     case uint32_t(variableType_e::String + variableType_e::String * variableType_e::Max):                // ( string )            ==        ( string )
     case uint32_t(variableType_e::Integer + variableType_e::String * variableType_e::Max):                // ( int )                ==        ( string )
